@@ -103,6 +103,13 @@ def oracle(ctx, script, real):
                 for j in aff:
                     run[j] = False
                     pend[j] = []        # power-off discards everything still queued - also on the children it switches off
+        elif "state" in e and len(e["state"]) >= 3 and bool(e["state"][2]) != any(run[k] and cfg[k]["clock"] for k in range(len(cfg))):
+            # a powered-on transceiver transmits its queued bursts only while the shared clock generator runs: it must run as long as
+            # ANY clock-owning transceiver is powered on, and only then
+            ctx.oracle_fail("the shared clock generator is %s while the powered-on clock owners are %s: queued bursts of a running transceiver would never go out"
+                            % ("running" if e["state"][2] else "stopped", [k for k in range(len(cfg)) if run[k] and cfg[k]["clock"]]),
+                            dict(trx_defs=defs, ops=[SC.describe(x) for x in ops]), key="c03-clock-follows-power")
+            return
         elif op[0] == "data" and len(op[2]) in (6, 154, 156, 450, 452) and e["obs"][:1] == [2] and (e["obs"] == [2, 1]) != (run[op[1]] and (op[2][0] >> 4) == ver[op[1]]):
             # a complete L1 datagram (header only, or header + 148 / 444 bits with or without the two legacy padding octets) is queued iff the transceiver is powered on and the datagram carries the header version in force
             ctx.oracle_fail("a complete burst datagram was %s although the transceiver is %s and the header version in force is %d (datagram: version %d)"
